@@ -8,7 +8,10 @@ package main
 // literals of different element types, make(type) binding one name to different
 // types, struct types with different field lists, modules of one name with
 // different contents, imports in different orders, channels of different element
-// types, host calls with different argument shapes). A case picks some members,
+// types, host calls with different argument shapes; struct type expressions over
+// a type name that the script or — `# env:` first line, c14_env.go — the host binds
+// to different types; script functions that end with an error and deep recursions).
+// A case picks some members,
 // orders them by the PRNG and runs them one after the other in THIS worker
 // process (whose history already holds every earlier case of the chunk and the
 // canaries), each freshly parsed on a fresh environment. The reference of a
@@ -29,7 +32,6 @@ import (
 
 	"verifharness/internal/ank"
 	"verifharness/internal/gen"
-	"verifharness/internal/realrun"
 	"verifharness/internal/wk"
 )
 
@@ -143,6 +145,25 @@ func c14BuildHistPool() ([]c14HistProg, map[string][]int) {
 	add("host-calls", "rd(\"r\", [toIntSlice([1, 2]), toStringSlice([\"a\"]), toFloatSlice([1.5]), toBoolSlice([true])])")
 	add("host-calls", "rd(\"r\", hs(1, \"a\") ?? \"refused\")\nrd(\"k\", [kindOf(1), kindOf(\"s\"), typeOf([1]), typeOf({})])")
 
+	// struct (slice, map, chan, pointer) type expressions over a type name the script binds itself:
+	// one spelling of the type expression, different types behind the name
+	for _, src := range c14ScriptTypePrograms() {
+		add("struct-env-types", src)
+	}
+	// script functions that end with an error, and deep (legal) recursions: what a recursion
+	// yields must not depend on how many calls ended with an error earlier in the process
+	for _, src := range c14ErrorExitPrograms {
+		add("call-depth", src)
+	}
+	for _, depth := range []int{4000, 9000} {
+		for _, src := range c14DeepRecursion(depth) {
+			add("call-depth", src)
+		}
+	}
+	for _, src := range c14ErrorThenDeepPrograms {
+		add("call-depth", src)
+	}
+
 	// everything aimed at per-node data and the shared literals
 	for _, f := range c14Features {
 		add("misc", f)
@@ -198,7 +219,7 @@ func c14RunFresh(src string, wd time.Duration) (c14Obs, bool) {
 	if po.Panicked || perr != nil || tree == nil {
 		return c14Obs{}, false
 	}
-	return c14Observe(realrun.RunTreeWatchdog(tree, wd, true)), true
+	return c14Observe(c14RunTree(tree, c14SpecOf(src), wd, true, nil)), true
 }
 
 var c14SoloCache = map[string]*c14Obs{}
@@ -288,6 +309,23 @@ func c14RunHist(c *wk.Case) {
 	k := 2 + c.Rng.Intn(5)
 	mode := "one-group"
 	switch r := c.Rng.Intn(20); {
+	case c.Index%10 == 3:
+		// one text, environments whose host binds the type names differently (c14_env.go);
+		// the solo child prepares its environment after the same first line
+		mode = "same-text-other-type-bindings"
+		text := c14TypeTexts[c.Rng.Intn(len(c14TypeTexts))]
+		for _, spec := range c14DistinctTypeSpecs(c, 2+c.Rng.Intn(3)) {
+			members = append(members, c14HistProg{"type-envs", c14SpecPrefix + spec + "\n" + text})
+		}
+		if c.Rng.Intn(2) == 0 {
+			// and a script that binds the names itself
+			idx := c14HistByGroup["struct-env-types"]
+			members = append(members, c14HistPool[idx[c.Rng.Intn(len(idx))]])
+			c.Rng.Shuffle(len(members), func(i, j int) { members[i], members[j] = members[j], members[i] })
+		}
+	case c.Index%10 == 6:
+		mode = "call-depth"
+		pick(c14HistByGroup["call-depth"], k)
 	case r < 12:
 		g := c14HistGroupNames[c.Rng.Intn(len(c14HistGroupNames))]
 		pick(c14HistByGroup[g], k)
